@@ -57,6 +57,7 @@ WITNESS = {
   'gen_semantics': ('samlang-compiler', 'crates/samlang-compiler/src/lib.rs', 'wx/witness/samlang_compiler_gen.rs', 'verif_witness_search_gen_semantics'),
   'gen_backends': ('samlang-compiler', 'crates/samlang-compiler/src/lib.rs', 'wx/witness/samlang_compiler_gen.rs', 'verif_witness_search_gen_backends'),
   'gen_optimizer': ('samlang-compiler', 'crates/samlang-compiler/src/lib.rs', 'wx/witness/samlang_compiler_gen.rs', 'verif_witness_search_gen_optimizer'),
+  'gen_nocrash': ('samlang-compiler', 'crates/samlang-compiler/src/lib.rs', 'wx/witness/samlang_compiler_gen.rs', 'verif_witness_search_gen_nocrash'),
   'gen_rejects': ('samlang-compiler', 'crates/samlang-compiler/src/lib.rs', 'wx/witness/samlang_compiler_gen.rs', 'verif_witness_search_gen_rejects'),
   'nocrash': ('samlang-compiler', 'crates/samlang-compiler/src/lib.rs', 'wx/witness/samlang_compiler_lib.rs', 'verif_witness_search_no_crash'),
   'loctree': ('samlang-parser', 'crates/samlang-parser/src/lib.rs', 'wx/witness/samlang_parser_locations.rs', 'verif_witness_search_location_tree'),
